@@ -14,6 +14,9 @@ var scanReaders = []string{"br-seek", "br-plain", "v1"}
 // skipping is scanning too: the same truncations through pure SkipNext iterations
 var skipReaders = []string{"sk-seek", "sk-plain"}
 
+// the root module's reader and its two loaders (store without / with PutMany); they take no options
+var rootReaders = []string{"root", "rootload", "rootloadfast"}
+
 // refSections walks `input` with a tolerant, go-car-independent parser and reports (code, data)
 // of every section it can delimit, so that hash lines can be emitted for the model.
 func refSections(input []byte, visit func(code uint64, data []byte)) {
@@ -274,7 +277,11 @@ func prefixCutCases(g *Gen, o *Out) {
 			for _, tr := range []bool{false, true} {
 				ro := defaultReadOpts()
 				ro.zeroEOF, ro.trusted = z, tr
-				for _, rd := range append(append([]string{}, scanReaders...), skipReaders...) {
+				rds := append(append([]string{}, scanReaders...), skipReaders...)
+				if ver == 1 && !z && !tr {
+					rds = append(rds, rootReaders...)
+				}
+				for _, rd := range rds {
 					if rd == "v1" && ver == 2 {
 						continue
 					}
@@ -327,6 +334,9 @@ func famC02(g *Gen, o *Out, n int, thorough bool) {
 		pickRd := func() string {
 			if ver == 2 || roots == "nil" || roots == "-" {
 				return scanReaders[g.pick(2)] // the CARv1 reader documents: CARv1 input with at least one root
+			}
+			if g.pick(3) == 0 && !ro.zeroEOF {
+				return rootReaders[g.pick(len(rootReaders))]
 			}
 			return scanReaders[g.pick(len(scanReaders))]
 		}
